@@ -31,6 +31,7 @@ def run(ctx):
     ctx.rule("R2.run-once-result-always-sent", "Option::take before the call; user closure only inside catch_unwind; sender.send on every path after it", floor=3)
     ctx.rule("R3.same-processor", "one processor id from current_processor_id feeds ensure_workers_spawned, get_or_init and the worker; worker pins (filter on that id) before worker_loop", floor=5)
     ctx.rule("R4.shutdown-order", "store(true, Release) -> signal_shutdown_all -> mem::take(handles) under lock -> join outside; ensure_workers_spawned re-reads the flag acquire-ish under the lock", floor=4)
+    ctx.rule("R8.registry-and-broadcast", "the per-processor table is sized by the processor ID space (max_processor_count), because it is indexed by processor id; signal_shutdown stores the flag and then broadcasts notify(usize::MAX) unconditionally", floor=2)
     ctx.rule("R5.enqueue-shutdown-discipline", "push_back of a task is control-dependent on a shutdown-flag read made under the queue lock; shutdown drains both queues", floor=3)
     ctx.rule("R7.shutdown-checked-before-any-task", "each worker iteration reads the shutdown flag before it may execute a task from either queue (otherwise queued work that keeps re-submitting itself starves the join in Drop)", floor=2)
     ctx.rule("R6.no-task-under-queue-lock", "no task execution (dyn VicinalTask::call) while a queue MutexGuard is live", floor=2)
@@ -341,3 +342,31 @@ def run(ctx):
                 ctx.ob("R6.no-task-under-queue-lock", f"{short(b.key)}|call#{n6}", not live, b.loc(t["span"]),
                        f"task executed with guards live: {[gl.guard_locals[l] + '<' + guard_target(b.local_ty(l)['s'])[:40] + '>' for l in live] or 'none'}"
                        + ("" if not live else " - spawns on this processor block and a nested spawn self-deadlocks"))
+
+    # ---------------- R8
+    rn = prog.one("processor_registry::ProcessorRegistry::new")
+    if rn is None:
+        ctx.missing("R8.registry-and-broadcast", "ProcessorRegistry::new")
+    else:
+        ctx.fn(rn)
+        sizes = [(bb, t) for bb, t in rn.calls() if t["callee"].get("method") in ("take", "with_capacity", "resize_with", "repeat_n", "resize")]
+        srcs = set()
+        for _bb, t in sizes:
+            for a in t["args"][1:] if t["callee"].get("method") in ("take", "resize_with", "resize") else t["args"]:
+                srcs |= {callee_key(ct["callee"]).split("::")[-1] for _k, _b, ct in Slice(rn).run(a)["calls"]}
+        ok = "max_processor_count" in srcs and not ({"active_processor_count", "len", "processors", "count"} & srcs)
+        ctx.ob("R8.registry-and-broadcast", "registry-sized-by-id-space", ok, rn.loc(), f"table size derives from {sorted(srcs)} (need max_processor_count: the table is indexed by processor id, and ids can be sparse)")
+    ss = prog.one("processor_state::ProcessorState::signal_shutdown")
+    if ss is None:
+        ctx.missing("R8.registry-and-broadcast", "ProcessorState::signal_shutdown")
+    else:
+        ctx.fn(ss)
+        st = [e for e in atomic_events(ss) if e["op"] == "store" and e["field"] and e["field"].endswith("shutdown_flag")]
+        nt = [(bb, t) for bb, t in ss.calls() if t["callee"].get("method") == "notify" and not ss.blocks[bb].cleanup]
+        pc = path_count(ss, [bb for bb, _ in nt]) if nt else (0, 0)
+        dom = ss.dominators(unwind=False)
+        from ..mir import resolve_const
+        maxed = all((resolve_const(ss, t["args"][1]) or {}).get("val") in (18446744073709551615, None) and "MAX" in str((resolve_const(ss, t["args"][1]) or {}).get("text", "MAX")) for _bb, t in nt)
+        ok = len(st) == 1 and len(nt) == 1 and pc == (1, 1) and st[0]["bb"] in dom[nt[0][0]] and maxed and not switch_guards(ss, nt[0][0])
+        ctx.ob("R8.registry-and-broadcast", "shutdown-broadcast-unconditional", ok, ss.loc(),
+               f"flag store {len(st)}, notify sites {len(nt)} per path {pc}, notify(usize::MAX): {maxed}, unguarded: {not (nt and switch_guards(ss, nt[0][0]))}")
